@@ -1,6 +1,11 @@
 (* C06: statements that are FALSE, with witnesses.
-   1. scale invariance of scaled errors without the "naive error not clamped" hypothesis;
-   2. faithful models of the open findings on the metric classes (see notes/C06.md). *)
+   1. scale invariance of scaled errors without the "naive error not clamped" hypothesis (this is
+      a limit of the property, not a defect: it shows the hypothesis of the theorem is needed);
+   2. HISTORICAL: the wrapper shapes four metric classes had in sktime 0.6.0 before the fix
+      commits (findings F-C06-1..5, all repaired - see notes/C06.md).  They are kept only to show
+      that the criterion `wrapper_ok`, which Bridge.v now proves for every class of the regenerated
+      table, rejects exactly these shapes: if one of them came back, gen_wrappers_all_ok would stop
+      checking.  Nothing here describes the current code. *)
 From Coq Require Import QArith Qabs List Bool ZArith.
 Require Import SkV.C06.Model SkV.C06.Agg SkV.C06.Proofs.
 Import ListNotations.
@@ -19,27 +24,38 @@ Proof.
   vm_compute in E. discriminate E.
 Qed.
 
-(* ---------------------------------------------------------------- the metric classes of 0.6.0
+(* ---------------------------------------------------------------- HISTORICAL wrapper shapes
 
-   Faithful wrapper facts of four classes as they are in the unchanged tree (hand-copied; the
-   regenerated table is GenWrap.v, and the correspondence run checks that the real classes behave
-   as `class_call` predicts from the regenerated facts).  Each violates "the class returns what the
-   function returns with the same options". *)
-Require Import SkV.C06.Wrap.
+   Hand-copied from the tree as it was before the fix commits.  The current classes are in the
+   regenerated GenWrap.v and all pass (Bridge.gen_wrappers_all_ok). *)
+Require Import SkV.C06.Wrap SkV.C06.WrapSem.
 From Coq Require Import String.
 Open Scope string_scope.
 
-Definition mase_060 := mkwrapper "MeanAbsoluteScaledError" "mean_absolute_scaled_error"
+Definition old_mase := mkwrapper "MeanAbsoluteScaledError" "mean_absolute_scaled_error"
   ["sp"] [("sp", FromArg "sp")] false [].
 Definition mase_sig := mkfsig "mean_absolute_scaled_error" ["sp"] ["y_train"].
 
-(* F-C06-1 / F-C06-2: the extra series cannot be passed, and without it the function refuses *)
-Theorem class_cannot_receive_series_refuted :
-  class_call mase_060 mase_sig ["y_train"] = TypeErr /\ class_call mase_060 mase_sig [] = TypeErr /\
-  wrapper_ok mase_060 mase_sig = false.
+(* was F-C06-1 / F-C06-2: __call__(y_true, y_pred) without **kwargs - the extra series cannot be
+   passed, and without it the function refuses *)
+Theorem old_call_without_kwargs_rejected :
+  class_call old_mase mase_sig ["y_train"] = TypeErr /\ class_call old_mase mase_sig [] = TypeErr /\
+  wrapper_ok old_mase mase_sig = false.
 Proof. repeat split; reflexivity. Qed.
 
-Definition masym_060 := mkwrapper "MeanAsymmetricError" "mean_asymmetric_error"
+(* ... and the shape "accepts **kwargs but does not forward the stored sp" (a half repair) is
+   rejected too: the call goes through with the function's default sp *)
+Definition half_mase := mkwrapper "MeanAbsoluteScaledError" "mean_absolute_scaled_error"
+  ["sp"] [("sp", FromArg "sp")] true [].
+Theorem half_repaired_scaled_wrapper_rejected :
+  wrapper_ok half_mase mase_sig = false /\
+  class_metric documented_defaults half_mase mase_sig (mkopts true false 2 0 PSq PAbs PAbs Mean)
+  = Some (textbook MASE (documented_defaults MASE)) /\
+  textbook MASE (documented_defaults MASE) <>
+  textbook MASE (mkopts true false 2 0 PSq PAbs PAbs Mean).
+Proof. repeat split; try reflexivity. intro H. discriminate H. Qed.
+
+Definition old_masym := mkwrapper "MeanAsymmetricError" "mean_asymmetric_error"
   ["asymmetric_threshold"; "left_error_function"; "right_error_function"]
   [("asymmetric_threshold", FromArg "asymmetric_threshold");
    ("left_error_function", FromArg "left_error_function");
@@ -49,29 +65,31 @@ Definition masym_060 := mkwrapper "MeanAsymmetricError" "mean_asymmetric_error"
 Definition masym_sig := mkfsig "mean_asymmetric_error"
   ["asymmetric_threshold"; "left_error_function"; "right_error_function"] [].
 
-(* F-C06-3 *)
-Theorem asymmetric_class_attribute_typo_refuted :
-  class_call masym_060 masym_sig [] = AttrErr /\ wrapper_ok masym_060 masym_sig = false.
+(* was F-C06-3: attribute typo *)
+Theorem old_attribute_typo_rejected :
+  class_call old_masym masym_sig [] = AttrErr /\ wrapper_ok old_masym masym_sig = false.
 Proof. split; reflexivity. Qed.
 
-Definition relloss_060 := mkwrapper "RelativeLoss" "relative_loss" ["relative_loss_function"]
+Definition old_relloss := mkwrapper "RelativeLoss" "relative_loss" ["relative_loss_function"]
   [("relative_loss_function", FromArg "relative_loss_function")] false
   [("loss_function", "_relative_func")].
 Definition relloss_sig := mkfsig "relative_loss" ["relative_loss_function"] ["y_pred_benchmark"].
 
-(* F-C06-4 *)
-Theorem relative_loss_class_refuted :
-  class_call relloss_060 relloss_sig [] = AttrErr /\
-  class_call relloss_060 relloss_sig ["y_pred_benchmark"] = TypeErr /\
-  wrapper_ok relloss_060 relloss_sig = false.
+(* was F-C06-4: keyword and attribute that do not exist *)
+Theorem old_relative_loss_call_rejected :
+  class_call old_relloss relloss_sig [] = AttrErr /\
+  class_call old_relloss relloss_sig ["y_pred_benchmark"] = TypeErr /\
+  wrapper_ok old_relloss relloss_sig = false.
 Proof. repeat split; reflexivity. Qed.
 
-Definition msse_060 := mkwrapper "MeanSquaredScaledError" "mean_squared_scaled_error"
-  ["sp"; "square_root"] [("sp", Fixed); ("square_root", FromArg "square_root")] false
-  [("square_root", "square_root")].
+Definition old_msse := mkwrapper "MeanSquaredScaledError" "mean_squared_scaled_error"
+  ["sp"; "square_root"] [("sp", Fixed); ("square_root", FromArg "square_root")] true
+  [("sp", "sp"); ("square_root", "square_root")].
 Definition msse_sig := mkfsig "mean_squared_scaled_error" ["sp"; "square_root"] ["y_train"].
 
-(* F-C06-5: sp is replaced by a constant in the constructor (and is not forwarded either) *)
-Theorem msse_class_drops_sp_refuted :
-  lookup "sp" (w_attrs msse_060) = Some Fixed /\ wrapper_ok msse_060 msse_sig = false.
-Proof. split; reflexivity. Qed.
+(* was F-C06-5: the constructor stores a constant instead of its sp argument (shown here with the
+   repaired __call__, i.e. the shape the tree has with every fix but that one) *)
+Theorem old_constant_sp_rejected :
+  lookup "sp" (w_attrs old_msse) = Some Fixed /\ wrapper_ok old_msse msse_sig = false /\
+  forall user, class_metric documented_defaults old_msse msse_sig user = None.
+Proof. repeat split; reflexivity. Qed.
